@@ -1,5 +1,6 @@
 //! vcore: engine, choice-sequence source, shared generators and reference models.
 pub mod engine;
+pub mod gentree;
 pub mod model;
 pub mod src;
 
